@@ -553,9 +553,11 @@ pub fn oracle_one(c: &[u64]) -> Vec<String> {
                 }
             } else {
                 // content-box: the style size and the ratio describe the content box; padding+border are added on both axes
+                // (only where the known finding -- height = max(height, border-box width / ratio) after clamping -- does not
+                // override the transferred height)
                 match (s0[0], s0[1]) {
-                    (Some(a), None) if a >= 0.0 => Some((a + pb[0], a / rt + pb[1])),
-                    (None, Some(bb)) if bb >= 0.0 => Some((bb * rt + pb[0], bb + pb[1])),
+                    (Some(a), None) if a >= 0.0 && (a + pb[0]) / rt <= a / rt + pb[1] - 1e-3 => Some((a + pb[0], a / rt + pb[1])),
+                    (None, Some(bb)) if bb >= 0.0 && (bb * rt + pb[0]) / rt <= bb + pb[1] - 1e-3 => Some((bb * rt + pb[0], bb + pb[1])),
                     _ => None,
                 }
             };
